@@ -12,25 +12,27 @@ Definition Unsat (W : world) (p : pred) (v : val) : Prop := ev W p v = Some fals
 Definition Any (v : val) : Prop := True.
 
 (* every program is safe for the trivial property *)
+Lemma Forall_any (vs : list val) : Forall Any vs.
+Proof. induction vs; constructor; unfold Any; auto. Qed.
+Lemma Forall_ex_any (vs : list val) : Forall (fun v => exists j : nat, (fun _ : nat => Any) j v) vs.
+Proof. induction vs; constructor; [exists 0; exact I|assumption]. Qed.
 Lemma Safe_any : forall g, Safe Any g.
 Proof.
   induction g; try (constructor; unfold Any; auto; fail).
   - eapply S_filter with (Q := Any); unfold Any; auto.
   - eapply S_map with (Q := Any); unfold Any; auto.
-  - eapply S_take with (Q := Any); unfold Any; auto. clear. induction acc; constructor; auto.
-  - eapply S_round with (Q := fun _ => Any); unfold Any; auto.
-    + clear. induction buf; constructor; eauto.
-    + intros vs _. clear. induction (emit vs); constructor; auto.
+  - eapply S_take with (Q := Any); auto using Forall_any.
+  - eapply S_round with (Q := fun _ => Any); auto using Forall_any, Forall_ex_any.
 Qed.
 
-Lemma Safe_emit P vs : Forall P vs -> Safe P (emit_all vs GStop).
+Lemma Safe_emit (P : val -> Prop) vs : Forall P vs -> Safe P (emit_all vs GStop).
 Proof. intros H. apply Safe_emit_all; [exact H|constructor]. Qed.
 
 (* ---------- helpers ---------- *)
 Definition is_int_in (lo hi : Z) (v : val) : Prop := exists z, v = vint z /\ (lo <= z <= hi)%Z.
 Definition is_float_in (lo hi : Q) (v : val) : Prop := exists q, v = vfloat q /\ (lo <= q)%Q /\ (q <= hi)%Q.
 
-Lemma draw_ints_safe P n lo hi low high k :
+Lemma draw_ints_safe (P : val -> Prop) n lo hi low high k :
   (lo <= low)%Z -> (high <= hi)%Z -> (low <= high)%Z -> (forall v, is_int_in lo hi v -> P v) -> Safe P k ->
   Safe P (draw_ints n low high k).
 Proof.
@@ -39,14 +41,14 @@ Proof.
   constructor; [|exact IH]. apply HP. exists z. split; [reflexivity|lia].
 Qed.
 
-Lemma between_safe P lo hi origin limit count k :
+Lemma between_safe (P : val -> Prop) lo hi origin limit count k :
   (forall v, is_int_in lo hi v -> P v) -> Safe P k -> Safe P (between lo hi origin limit count k).
 Proof.
   intros HP Hk. unfold between. destruct (Z.leb_spec (Z.max (origin - limit) lo) (Z.min (origin + limit) hi)); [|exact Hk].
   apply (draw_ints_safe P count lo hi); auto; lia.
 Qed.
 
-Lemma random_ints_safe P lo hi : (forall v, is_int_in lo hi v -> P v) -> Safe P (random_ints lo hi).
+Lemma random_ints_safe (P : val -> Prop) lo hi : (forall v, is_int_in lo hi v -> P v) -> Safe P (random_ints lo hi).
 Proof.
   intros HP. unfold random_ints. destruct (hi <? lo)%Z; [constructor|].
   assert (Hb : Safe P (between lo hi (Z.min (Z.max 0 lo) hi) 1 1 (between lo hi (Z.min (Z.max 0 lo) hi) 10 10
@@ -55,7 +57,7 @@ Proof.
   constructor. constructor; exact Hb.
 Qed.
 
-Lemma random_floats_safe P lo hi :
+Lemma random_floats_safe (P : val -> Prop) lo hi :
   (lo <= hi)%Q -> (forall v, is_float_in lo hi v -> P v) -> Safe P (random_floats lo hi).
 Proof.
   intros Hl HP. unfold random_floats.
@@ -83,14 +85,13 @@ Proof.
   destruct (nth_in_or_default (Z.to_nat z) pool (hd VNone pool)) as [Hin|Hd]; [exact Hin|].
   rewrite Hd. destruct pool; [contradiction|]. left. reflexivity.
 Qed.
+Lemma insertZ_length z l : List.length (insertZ z l) = S (List.length l).
+Proof. induction l as [|x l IHl]; cbn; [reflexivity|]. destruct (z <=? x)%Z; cbn; [reflexivity|]. now rewrite IHl. Qed.
+Lemma sortZ_length l : List.length (sortZ l) = List.length l.
+Proof. unfold sortZ. induction l as [|z r IH]; cbn; [reflexivity|]. now rewrite insertZ_length, IH. Qed.
 Lemma select_length pool idx : List.length (select pool idx) = List.length idx.
-Proof.
-  unfold select. rewrite map_length. induction idx as [|z r IH]; cbn; [reflexivity|].
-  assert (H : forall l, List.length (insertZ z l) = S (List.length l)).
-  { induction l as [|x l IHl]; cbn; [reflexivity|]. destruct (z <=? x)%Z; cbn; [reflexivity|]. now rewrite IHl. }
-  rewrite H. now rewrite IH.
-Qed.
-Lemma draw_idx_safe P r n acc k : (forall idx, List.length idx = r + List.length acc -> Safe P (k idx)) -> Safe P (draw_idx r n acc k).
+Proof. unfold select. now rewrite map_length, sortZ_length. Qed.
+Lemma draw_idx_safe (P : val -> Prop) r n acc k : (forall idx, List.length idx = r + List.length acc -> Safe P (k idx)) -> Safe P (draw_idx r n acc k).
 Proof.
   revert acc. induction r as [|r IH]; intros acc H; cbn.
   - apply H. rewrite rev_length. reflexivity.
@@ -102,4 +103,362 @@ Proof.
   intros Hp Hk. unfold rcwr. destruct pool as [|x pool']; [constructor|].
   apply draw_idx_safe. intros idx Hl. apply Hk; [apply select_in; [discriminate|exact Hp]|].
   rewrite select_length, Hl. cbn. lia.
+Qed.
+
+(* ---------- what the theorems assume about the world and the term ---------- *)
+(* the isinstance table says the generated kinds are instances of the classes they were generated for *)
+Definition world_ok (W : world) : Prop :=
+  isinst W KStr 4 = true /\ isinst W KBool 0 = true /\ isinst W KComplex 3 = true /\ isinst W KDatetime 10 = true /\
+  isinst W KDict 9 = true /\ isinst W KFloat 2 = true /\ isinst W KUuid 11 = true /\ isinst W KInt 1 = true /\
+  isinst W KSet 8 = true.
+
+(* side conditions on the term: integer constants where the constants' type is int, and - the known finding about
+   `|` - the left operand of a disjunction must not raise on the values the right operand's generator produces
+   (stated simply as: it never raises) *)
+Fixpoint gen_ok (W : world) (ck : kind) (p : pred) : Prop :=
+  match p with
+  | POr l r => (forall v, ev W l v <> None) /\ gen_ok W ck l /\ gen_ok W ck r
+  | PAnd l r => gen_ok W ck l /\ gen_ok W ck r
+  | PAll q | PAny q | PSetOf q => gen_ok W ck q
+  | PGe v | PGt v | PLe v | PLt v => ck = KInt -> (inject_Z (Qfloor v) == v)%Q
+  | _ => True
+  end.
+
+Lemma Sat_weaken_any W p g : (forall v, Sat W p v) -> Safe (Sat W p) g.
+Proof. intros H. eapply Safe_weaken; [|apply Safe_any]. intros v _. apply H. Qed.
+
+Lemma kind_isinst W k c ks v : type_of v = k -> isinst W k c = true -> ev W (PIsInstance (c :: ks)) v = Some true.
+Proof. intros Hk Hi. cbn. unfold isinstance. cbn. rewrite Hk, Hi. reflexivity. Qed.
+
+Lemma is_kind_type k v : is_kind k v = true -> type_of v = k.
+Proof. unfold is_kind. destruct (type_of v), k; cbn; congruence. Qed.
+
+(* the type-test generators *)
+Lemma strings_safe (P : val -> Prop) : (forall v, type_of v = KStr -> P v) -> Safe P random_strings.
+Proof.
+  intros HP. unfold random_strings. constructor.
+  assert (Hb : Safe P (GInt 0 10 (fun _ => GVal (is_kind KStr) str_dflt (fun s => GYield s GStop)))).
+  { constructor. intros z _. constructor. intros v [Hv|Hv]; (constructor; [|constructor]); apply HP;
+    [apply is_kind_type; exact Hv|subst; reflexivity]. }
+  constructor; exact Hb.
+Qed.
+Lemma uuids_safe (P : val -> Prop) : (forall v, type_of v = KUuid -> P v) -> Safe P random_uuids.
+Proof.
+  intros HP. unfold random_uuids. constructor.
+  assert (Hb : Safe P (GVal (is_kind KUuid) uuid_dflt (fun u => GYield u GStop))).
+  { constructor. intros v [Hv|Hv]; (constructor; [|constructor]); apply HP; [apply is_kind_type; exact Hv|subst; reflexivity]. }
+  constructor; exact Hb.
+Qed.
+Lemma datetimes_safe (P : val -> Prop) : (forall v, type_of v = KDatetime -> P v) -> Safe P random_datetimes.
+Proof.
+  intros HP. unfold random_datetimes. constructor. constructor.
+  intros v [Hv|Hv]; (constructor; [|constructor]); apply HP; [apply is_kind_type; exact Hv|subst; reflexivity].
+Qed.
+Lemma dicts_safe (P : val -> Prop) : (forall ks, P (VColl KDict ks)) -> Safe P random_dicts.
+Proof.
+  intros HP. unfold random_dicts. constructor. constructor; [apply HP|].
+  assert (Hb : Safe P (GTake 5 random_strings [] (fun keys => GTake 5 random_anys [] (fun vals =>
+                GYield (VColl KDict (firstn (List.length vals) keys)) GStop)))).
+  { eapply S_take with (Q := Any); [apply Safe_any|constructor|]. intros keys _.
+    eapply S_take with (Q := Any); [apply Safe_any|constructor|]. intros vals _. constructor; [apply HP|constructor]. }
+  constructor; exact Hb.
+Qed.
+Lemma sets_safe (P : val -> Prop) : (forall vs, P (VColl KSet vs)) -> Safe P random_sets.
+Proof.
+  intros HP. unfold random_sets. constructor. constructor; [apply HP|].
+  assert (Hb : Safe P (GInt 0 10 (fun n => GTake (Z.to_nat n) random_anys [] (fun vs => GYield (VColl KSet vs) GStop)))).
+  { constructor. intros z _. eapply S_take with (Q := Any); [apply Safe_any|constructor|].
+    intros vs _. constructor; [apply HP|constructor]. }
+  constructor; exact Hb.
+Qed.
+
+Lemma offsets_safe (P : val -> Prop) v sign from n k :
+  (forall d, P (cv KDatetime (v + inject_Z (sign * d))%Q) \/ (d < from)%Z) -> Safe P k -> Safe P (offsets v sign from n k).
+Proof.
+  revert from. induction n as [|n IH]; intros from H Hk; cbn; [exact Hk|].
+  constructor.
+  - destruct (H from) as [Hp|Hl]; [exact Hp|lia].
+  - apply IH; [|exact Hk]. intros d. destruct (H d) as [Hp|Hl]; [left; exact Hp|right; lia].
+Qed.
+
+(* ---------- comparison atoms ---------- *)
+Lemma sat_ge W v k q t : (v <= q)%Q -> Sat W (PGe v) (VQ k q t).
+Proof. intros H. unfold Sat. cbn. f_equal. apply Qle_bool_iff. exact H. Qed.
+Lemma sat_le W v k q t : (q <= v)%Q -> Sat W (PLe v) (VQ k q t).
+Proof. intros H. unfold Sat. cbn. f_equal. apply Qle_bool_iff. exact H. Qed.
+Lemma sat_gt W v k q t : (v < q)%Q -> Sat W (PGt v) (VQ k q t).
+Proof. intros H. unfold Sat. cbn. f_equal. unfold Qlt_bool. apply negb_true_iff. destruct (Qle_bool q v) eqn:E; [|reflexivity].
+  apply Qle_bool_iff in E. exfalso. lra. Qed.
+Lemma sat_lt W v k q t : (q < v)%Q -> Sat W (PLt v) (VQ k q t).
+Proof. intros H. unfold Sat. cbn. f_equal. unfold Qlt_bool. apply negb_true_iff. destruct (Qle_bool v q) eqn:E; [|reflexivity].
+  apply Qle_bool_iff in E. exfalso. lra. Qed.
+Lemma unsat_ge W v k q t : (q < v)%Q -> Unsat W (PGe v) (VQ k q t).
+Proof. intros H. unfold Unsat. cbn. f_equal. destruct (Qle_bool v q) eqn:E; [|reflexivity]. apply Qle_bool_iff in E. exfalso. lra. Qed.
+Lemma unsat_gt W v k q t : (q <= v)%Q -> Unsat W (PGt v) (VQ k q t).
+Proof. intros H. unfold Unsat. cbn. f_equal. unfold Qlt_bool. apply negb_false_iff. apply Qle_bool_iff. exact H. Qed.
+
+Lemma injZ_nonneg d : (0 <= d)%Z -> (0 <= inject_Z d)%Q.
+Proof. intros H. change 0%Q with (inject_Z 0). rewrite <- Zle_Qle; exact H. Qed.
+Lemma injZ_pos d : (1 <= d)%Z -> (1 <= inject_Z d)%Q.
+Proof. intros H. change 1%Q with (inject_Z 1). rewrite <- Zle_Qle; exact H. Qed.
+Lemma injZ_neg d : (0 <= d)%Z -> (inject_Z (-1 * d) == - inject_Z d)%Q.
+Proof. intros _. unfold Qeq, Qopp, inject_Z. cbn [Qnum Qden]. lia. Qed.
+Lemma injZ_one d : (inject_Z (1 * d) == inject_Z d)%Q.
+Proof. unfold Qeq, inject_Z. cbn [Qnum Qden]. lia. Qed.
+
+(* a comparison generator, for the five constant sorts *)
+Lemma by_sort_true_safe W ck p (P : val -> Prop) dt fl it :
+  (forall v, Sat W p v -> P v) -> (ck = KDatetime -> Safe P dt) -> (ck = KFloat -> Safe P fl) -> (ck = KInt -> Safe P it) ->
+  Safe P (GFun (by_sort_true W ck p dt fl it)).
+Proof.
+  intros HP Hd Hf Hi. constructor. unfold by_sort_true.
+  destruct ck; auto; try (constructor; fail);
+    (unfold generate_strings, generate_uuids; eapply Safe_weaken; [exact HP|apply filter_safe]).
+Qed.
+Lemma by_sort_false_safe W ck p (P : val -> Prop) dt fl it :
+  (forall v, Sat W (PNot p) v -> P v) -> (ck = KDatetime -> Safe P dt) -> (ck = KFloat -> Safe P fl) -> (ck = KInt -> Safe P it) ->
+  Safe P (GFun (by_sort_false W ck p dt fl it)).
+Proof.
+  intros HP Hd Hf Hi. constructor. unfold by_sort_false.
+  destruct ck; auto; try (constructor; fail);
+    (unfold generate_strings, generate_uuids; eapply Safe_weaken; [exact HP|apply filter_safe]).
+Qed.
+
+Lemma sat_not_unsat W p v : Sat W (PNot p) v -> Unsat W p v.
+Proof. unfold Sat, Unsat. cbn. destruct (ev W p v) as [[|]|]; cbn; congruence. Qed.
+
+Ltac int_case :=
+  apply random_ints_safe; intros ? (z & -> & Hz); unfold vint.
+Ltac float_case fe :=
+  apply random_floats_safe; [|intros ? (q & -> & Hq1 & Hq2); unfold vfloat].
+Ltac dt_case :=
+  apply offsets_safe; [|constructor]; intros d; destruct (Z_lt_le_dec d 0) as [Hd|Hd]; [right; lia|]; unfold cv.
+
+Lemma cmp_true_safe fe W ck : fenv_ok fe -> forall v, (ck = KInt -> (inject_Z (Qfloor v) == v)%Q) ->
+  Safe (Sat W (PGe v)) (gen_true fe W ck (PGe v)) /\ Safe (Sat W (PGt v)) (gen_true fe W ck (PGt v)) /\
+  Safe (Sat W (PLe v)) (gen_true fe W ck (PLe v)) /\ Safe (Sat W (PLt v)) (gen_true fe W ck (PLt v)).
+Proof.
+  intros (Hup & Hdn & Hlo & Hhi) v Hint. cbn [gen_true]. unfold zfloor.
+  repeat split; apply by_sort_true_safe; auto; intros Hck.
+  - dt_case. left. apply sat_ge. pose proof (injZ_nonneg d Hd). pose proof (injZ_one d). lra.
+  - float_case fe; [apply Hhi|]. apply sat_ge. exact Hq1.
+  - int_case. apply sat_ge. specialize (Hint Hck). assert ((inject_Z (Qfloor v) <= inject_Z z)%Q) by (rewrite <- Zle_Qle; lia). lra.
+  - apply offsets_safe; [|constructor]. intros d. destruct (Z_lt_le_dec d 1) as [Hd|Hd]; [right; lia|]. left. unfold cv.
+    apply sat_gt. pose proof (injZ_pos d Hd). pose proof (injZ_one d). lra.
+  - float_case fe; [apply Hhi|]. apply sat_gt. pose proof (Hup v). lra.
+  - int_case. apply sat_gt. specialize (Hint Hck). assert ((inject_Z (Qfloor v + 1) <= inject_Z z)%Q) by (rewrite <- Zle_Qle; lia).
+    rewrite inject_Z_plus in H. assert (E1 : (inject_Z 1 == 1)%Q) by reflexivity. rewrite E1 in H. lra.
+  - dt_case. left. apply sat_le. pose proof (injZ_nonneg d Hd). pose proof (injZ_neg d Hd). lra.
+  - float_case fe; [apply Hlo|]. apply sat_le. exact Hq2.
+  - int_case. apply sat_le. specialize (Hint Hck). assert ((inject_Z z <= inject_Z (Qfloor v))%Q) by (rewrite <- Zle_Qle; lia). lra.
+  - apply offsets_safe; [|constructor]. intros d. destruct (Z_lt_le_dec d 1) as [Hd|Hd]; [right; lia|]. left. unfold cv.
+    apply sat_lt. pose proof (injZ_pos d Hd). assert (Hd0 : (0 <= d)%Z) by lia. pose proof (injZ_neg d Hd0). lra.
+  - float_case fe; [apply Hlo|]. apply sat_lt. pose proof (Hdn v). lra.
+  - int_case. apply sat_lt. specialize (Hint Hck). assert ((inject_Z z <= inject_Z (Qfloor v - 1))%Q) by (rewrite <- Zle_Qle; lia).
+    unfold Z.sub in H. rewrite inject_Z_plus in H. assert (E1 : (inject_Z (-1) == -1)%Q) by reflexivity. rewrite E1 in H. lra.
+Qed.
+
+Lemma mem_self_in' a s : In a s -> mem a s = true.
+Proof. intros H. unfold mem. apply existsb_exists. exists a. split; [exact H|apply Qeq_bool_refl']. Qed.
+
+(* ---------- generate_true: the main theorem ---------- *)
+Lemma fixed_safe (P : val -> Prop) vs : Forall P vs -> Safe P (GFun (fixed vs)).
+Proof. intros H. constructor. apply Safe_emit. exact H. Qed.
+
+Lemma sat_or_l W l r v : Sat W l v -> Sat W (POr l r) v.
+Proof. unfold Sat. cbn. intros ->. reflexivity. Qed.
+Lemma sat_or_r W l r v : ev W l v <> None -> Sat W r v -> Sat W (POr l r) v.
+Proof. unfold Sat. cbn. intros Hn Hr. destruct (ev W l v) as [[|]|]; [reflexivity|exact Hr|contradiction]. Qed.
+Lemma sat_and W l r v : Sat W l v -> Sat W r v -> Sat W (PAnd l r) v.
+Proof. unfold Sat. cbn. intros -> ->. reflexivity. Qed.
+Lemma sat_all W q k vs : Forall (Sat W q) vs -> Sat W (PAll q) (VColl k vs).
+Proof. intros H. unfold Sat. cbn. apply ev_all_true. exact H. Qed.
+Lemma sat_setof W q k vs : Forall (Sat W q) vs -> Sat W (PSetOf q) (VColl k vs).
+Proof. intros H. unfold Sat. cbn. apply ev_all_true. exact H. Qed.
+Lemma sat_any W q k vs : vs <> [] -> Forall (Sat W q) vs -> Sat W (PAny q) (VColl k vs).
+Proof. intros Hne H. destruct H as [|v r Hv _]; [contradiction|]. unfold Sat. cbn. rewrite Hv. reflexivity. Qed.
+Lemma dedupv_incl (P : val -> Prop) vs : Forall P vs -> Forall P (dedupv vs).
+Proof. induction 1 as [|v r Hv _ IH]; cbn; [constructor|]. destruct (existsb (pyeq v) r); [exact IH|constructor; assumption]. Qed.
+
+Lemma all_true_safe W q g : Safe (Sat W q) g ->
+  Safe (Sat W (PAll q))
+    (GFun (GYield (VColl KList [])
+      (let body := GInt 1 10 (fun z => let n := Z.to_nat z in
+        GTake n g [] (fun vs => match vs with [] => GAbort | _ =>
+          rcwr vs n (fun c1 => GYield (VColl KTuple c1)
+            (GTake n g [] (fun vs2 => rcwr vs2 n (fun c2 =>
+              (fun k => if all_hashable c2 then GYield (VColl KSet c2) k else k)
+                (GTake n g [] (fun vs3 => rcwr vs3 n (fun c3 => GYield (VColl KList c3) GStop))))))) end)) in
+       GLoop body body))).
+Proof.
+  intros Hg. cbv zeta. constructor. constructor; [apply sat_all; constructor|].
+  assert (Hb : Safe (Sat W (PAll q)) (GInt 1 10 (fun z =>
+        GTake (Z.to_nat z) g [] (fun vs => match vs with [] => GAbort | _ =>
+          rcwr vs (Z.to_nat z) (fun c1 => GYield (VColl KTuple c1)
+            (GTake (Z.to_nat z) g [] (fun vs2 => rcwr vs2 (Z.to_nat z) (fun c2 =>
+              (fun k => if all_hashable c2 then GYield (VColl KSet c2) k else k)
+                (GTake (Z.to_nat z) g [] (fun vs3 => rcwr vs3 (Z.to_nat z) (fun c3 => GYield (VColl KList c3) GStop))))))) end)))).
+  { constructor. intros z _. eapply S_take with (Q := Sat W q); [exact Hg|constructor|]. intros vs Hvs.
+    destruct vs as [|v0 vs']; [constructor|]. eapply rcwr_safe; [exact Hvs|]. intros c1 Hc1 _.
+    constructor; [apply sat_all; exact Hc1|].
+    eapply S_take with (Q := Sat W q); [exact Hg|constructor|]. intros vs2 Hvs2.
+    eapply rcwr_safe; [exact Hvs2|]. intros c2 Hc2 _.
+    assert (Hrest : Safe (Sat W (PAll q)) (GTake (Z.to_nat z) g [] (fun vs3 => rcwr vs3 (Z.to_nat z) (fun c3 => GYield (VColl KList c3) GStop)))).
+    { eapply S_take with (Q := Sat W q); [exact Hg|constructor|]. intros vs3 Hvs3.
+      eapply rcwr_safe; [exact Hvs3|]. intros c3 Hc3 _. constructor; [apply sat_all; exact Hc3|constructor]. }
+    destruct (all_hashable c2); [constructor; [apply sat_all; exact Hc2|exact Hrest]|exact Hrest]. }
+  constructor; exact Hb.
+Qed.
+
+Theorem gen_true_safe fe W ck : fenv_ok fe -> world_ok W ->
+  forall p, gen_ok W ck p -> Safe (Sat W p) (gen_true fe W ck p).
+Proof.
+  intros Hfe (Wstr & Wbool & Wcplx & Wdt & Wdict & Wfloat & Wuuid & Wint & Wset).
+  induction p; intros Hok; cbn [gen_ok] in Hok.
+  all: try (cbn [gen_true]; repeat constructor; fail).
+  - (* And *) destruct Hok as [Hl Hr]. cbn [gen_true].
+    assert (Hmain : Safe (Sat W (PAnd p1 p2))
+              (GFun (GSeq (GFilter (passes W p2) (gen_true fe W ck p1) GStop) (GFilter (passes W p1) (gen_true fe W ck p2) GStop)))).
+    { constructor. constructor.
+      - eapply S_filter with (Q := Sat W p1); [apply IHp1; exact Hl| |constructor].
+        intros v H1 H2. apply sat_and; [exact H1|apply passes_sat; exact H2].
+      - eapply S_filter with (Q := Sat W p2); [apply IHp2; exact Hr| |constructor].
+        intros v H2 H1. apply sat_and; [apply passes_sat; exact H1|exact H2]. }
+    destruct (optimize W (4 * w (PAnd p1 p2) + 3) (PAnd p1 p2)) as [q tr| |]; try exact Hmain.
+    destruct q; try exact Hmain. repeat constructor.
+  - (* Or *) destruct Hok as (Htot & Hl & Hr). cbn [gen_true]. constructor.
+    eapply S_round with (Q := fun j => match j with O => Sat W p1 | _ => Sat W p2 end).
+    + intros [|j]; [apply IHp1; exact Hl|apply IHp2; exact Hr].
+    + constructor.
+    + intros vs Hvs. eapply Forall_impl; [|exact Hvs]. intros v ([|j] & Hv); [apply sat_or_l; exact Hv|apply sat_or_r; [apply Htot|exact Hv]].
+    + constructor.
+  - (* Eq *) cbn [gen_true]. constructor.
+    assert (Hb : Safe (Sat W (PEq f_v)) (GYield (cv ck f_v) GStop)).
+    { constructor; [|constructor]. unfold Sat, cv. cbn. now rewrite Qeq_bool_refl'. }
+    constructor; exact Hb.
+  - (* Ne *) cbn [gen_true]. constructor. constructor; [|constructor]. unfold Sat, vbool. cbn. f_equal.
+    destruct (Qeq_bool f_v 0) eqn:E; cbn.
+    + apply Qeq_bool_iff in E. apply negb_true_iff. destruct (Qeq_bool 1 f_v) eqn:E2; [|reflexivity].
+      apply Qeq_bool_iff in E2. exfalso. lra.
+    + apply negb_true_iff. rewrite Qeq_bool_sym'. exact E.
+  - (* Ge *) apply (cmp_true_safe fe W ck Hfe f_v Hok).
+  - (* Gt *) apply (cmp_true_safe fe W ck Hfe f_v Hok).
+  - (* Le *) apply (cmp_true_safe fe W ck Hfe f_v Hok).
+  - (* Lt *) apply (cmp_true_safe fe W ck Hfe f_v Hok).
+  - (* In *) cbn [gen_true]. apply fixed_safe. apply Forall_forall. intros v Hv. apply in_map_iff in Hv as (x & <- & Hx).
+    unfold Sat, cv. cbn. f_equal. apply mem_self_in'. exact Hx.
+  - (* NotIn *) cbn [gen_true]. destruct f_v; [repeat constructor|].
+    destruct ck; try (repeat constructor; fail); unfold generate_ints, generate_strings; apply filter_safe.
+  - (* IsInstance *) cbn [gen_true]. destruct f_klass as [|c ks]; [repeat constructor|].
+    repeat match goal with |- context [Nat.eqb c ?n] => destruct (Nat.eqb_spec c n); [subst|] end; try (repeat constructor; fail).
+    + apply strings_safe. intros v Hv. eapply kind_isinst; [exact Hv|eassumption].
+    + constructor. assert (Hb : Safe (Sat W (PIsInstance (0 :: ks))) (GYield (vbool false) (GYield (vbool true) GStop))).
+      { constructor; [eapply kind_isinst; [reflexivity|eassumption]|]. constructor; [eapply kind_isinst; [reflexivity|eassumption]|constructor]. }
+      constructor; exact Hb.
+    + unfold random_complex. constructor. constructor; [eapply kind_isinst; [reflexivity|eassumption]|constructor].
+    + apply datetimes_safe. intros v Hv. eapply kind_isinst; [exact Hv|eassumption].
+    + apply dicts_safe. intros ks'. eapply kind_isinst; [reflexivity|eassumption].
+    + unfold default_floats. apply random_floats_safe; [lra|]. intros v (q & -> & _). eapply kind_isinst; [reflexivity|eassumption].
+    + apply uuids_safe. intros v Hv. eapply kind_isinst; [exact Hv|eassumption].
+    + apply random_ints_safe. intros v (z & -> & _). eapply kind_isinst; [reflexivity|eassumption].
+    + apply sets_safe. intros vs. eapply kind_isinst; [reflexivity|eassumption].
+  - (* IsNotNone *) cbn [gen_true]. unfold generate_anys. apply filter_safe.
+  - (* All *) cbn [gen_true]. apply all_true_safe. apply IHp. exact Hok.
+  - (* Any *) cbn [gen_true]. constructor. eapply S_take with (Q := Sat W p); [apply IHp; exact Hok|constructor|].
+    intros vs Hvs. destruct vs as [|v0 vs']; [constructor|].
+    eapply rcwr_safe; [exact Hvs|]. intros c1 Hc1 Hl1. constructor.
+    { apply sat_any; [destruct c1; [discriminate|discriminate]|exact Hc1]. }
+    eapply rcwr_safe; [exact Hvs|]. intros c2 Hc2 Hl2.
+    destruct (all_hashable c2); [|constructor]. constructor; [|constructor].
+    apply sat_any; [destruct c2; [discriminate|discriminate]|exact Hc2].
+  - (* HasKey *) cbn [gen_true]. constructor. eapply S_round with (Q := fun _ => Any).
+    + intros j. apply Safe_any.
+    + constructor.
+    + intros vs _. constructor; [|constructor].
+      unfold Sat, cv. cbn. f_equal. rewrite existsb_app. cbn. rewrite Qeq_bool_refl'. now rewrite orb_true_r.
+    + constructor.
+  - (* SetOf *) cbn [gen_true]. constructor.
+    assert (Hb : Safe (Sat W (PSetOf p)) (GInt 0 10 (fun z => GTake (Z.to_nat z) (gen_true fe W ck p) [] (fun vs =>
+          if all_hashable vs && Nat.eqb (List.length (dedupv vs)) (Z.to_nat z) then GYield (VColl KTuple (dedupv vs)) GStop else GStop)))).
+    { constructor. intros z _. eapply S_take with (Q := Sat W p); [apply IHp; exact Hok|constructor|]. intros vs Hvs.
+      destruct (all_hashable vs && Nat.eqb (List.length (dedupv vs)) (Z.to_nat z)); [|constructor].
+      constructor; [|constructor]. apply sat_setof. apply dedupv_incl. exact Hvs. }
+    constructor; exact Hb.
+Qed.
+
+(* ---------- generate_false ---------- *)
+Fixpoint gen_ok_false (W : world) (ck : kind) (p : pred) : Prop :=
+  match p with
+  | PAnd l r => (forall v, ev W l v <> None) /\ gen_ok_false W ck l /\ gen_ok_false W ck r
+  | POr l r => (forall v, ev W l v <> None) /\ (forall v, ev W r v <> None) /\ gen_ok_false W ck l /\ gen_ok_false W ck r
+  | PAll q | PSetOf q => gen_ok_false W ck q
+  | PGe v | PGt v => ck = KInt -> (inject_Z (Qfloor v) == v)%Q
+  | _ => True
+  end.
+
+Lemma filter_not_safe W p g : Safe (Unsat W p) (GFun (GFilter (passes W (PNot p)) g GStop)).
+Proof. eapply Safe_weaken; [|apply filter_safe]. intros v. apply sat_not_unsat. Qed.
+Lemma unsat_all W q k v r : Unsat W q v -> Unsat W (PAll q) (VColl k (v :: r)).
+Proof. intros H. unfold Unsat. cbn. rewrite H. reflexivity. Qed.
+Lemma unsat_setof W q k v r : Unsat W q v -> Unsat W (PSetOf q) (VColl k (v :: r)).
+Proof. intros H. unfold Unsat. cbn. rewrite H. reflexivity. Qed.
+
+Lemma cmp_false_safe fe W ck : fenv_ok fe -> forall v, (ck = KInt -> (inject_Z (Qfloor v) == v)%Q) ->
+  Safe (Unsat W (PGe v)) (gen_false fe W ck (PGe v)) /\ Safe (Unsat W (PGt v)) (gen_false fe W ck (PGt v)).
+Proof.
+  intros (Hup & Hdn & Hlo & Hhi) v Hint. cbn [gen_false]. unfold zfloor.
+  split; apply by_sort_false_safe; auto using sat_not_unsat; intros Hck.
+  - apply offsets_safe; [|constructor]. intros d. destruct (Z_lt_le_dec d 1) as [Hd|Hd]; [right; lia|]. left. unfold cv.
+    apply unsat_ge. pose proof (injZ_pos d Hd). assert (Hd0 : (0 <= d)%Z) by lia. pose proof (injZ_neg d Hd0). lra.
+  - float_case fe; [apply Hlo|]. apply unsat_ge. pose proof (Hdn v). lra.
+  - int_case. apply unsat_ge. specialize (Hint Hck). assert ((inject_Z z <= inject_Z (Qfloor v - 1))%Q) by (rewrite <- Zle_Qle; lia).
+    unfold Z.sub in H. rewrite inject_Z_plus in H. assert (E1 : (inject_Z (-1) == -1)%Q) by reflexivity. rewrite E1 in H. lra.
+  - dt_case. left. apply unsat_gt. pose proof (injZ_nonneg d Hd). pose proof (injZ_neg d Hd). lra.
+  - float_case fe; [apply Hlo|]. apply unsat_gt. exact Hq2.
+  - int_case. apply unsat_gt. specialize (Hint Hck). assert ((inject_Z z <= inject_Z (Qfloor v))%Q) by (rewrite <- Zle_Qle; lia). lra.
+Qed.
+
+Theorem gen_false_safe fe W ck : fenv_ok fe ->
+  forall p, gen_ok_false W ck p -> Safe (Unsat W p) (gen_false fe W ck p).
+Proof.
+  intros Hfe. induction p; intros Hok; cbn [gen_ok_false] in Hok.
+  all: try (cbn [gen_false]; repeat constructor; fail).
+  all: try (cbn [gen_false]; unfold generate_anys; apply filter_not_safe).
+  all: try (apply (cmp_false_safe fe W ck Hfe f_v Hok)).
+  - (* False *) cbn [gen_false]. eapply Safe_weaken; [|apply Safe_any]. intros v _. reflexivity.
+  - (* And *) destruct Hok as (Htot & Hl & Hr). cbn [gen_false].
+    assert (Hmain : Safe (Unsat W (PAnd p1 p2)) (GFun (GSeq (gen_false fe W ck p1) (gen_false fe W ck p2)))).
+    { constructor. constructor.
+      - eapply Safe_weaken; [|apply IHp1; exact Hl]. intros v Hv. unfold Unsat in *. cbn. rewrite Hv. reflexivity.
+      - eapply Safe_weaken; [|apply IHp2; exact Hr]. intros v Hv. unfold Unsat in *. cbn.
+        specialize (Htot v). destruct (ev W p1 v) as [[|]|]; [exact Hv|reflexivity|contradiction]. }
+    destruct (optimize W (4 * w (PAnd p1 p2) + 3) (PAnd p1 p2)) as [q tr| |]; try exact Hmain.
+    destruct q; try exact Hmain. repeat constructor.
+  - (* Or *) destruct Hok as (Htl & Htr & Hl & Hr). cbn [gen_false]. constructor. constructor.
+    + eapply S_filter with (Q := Unsat W p1); [apply IHp1; exact Hl| |constructor].
+      intros v H1 H2. unfold Unsat in *. cbn. rewrite H1. unfold passes, ob in H2. specialize (Htr v).
+      destruct (ev W p2 v) as [[|]|]; [discriminate|reflexivity|contradiction].
+    + eapply S_filter with (Q := Unsat W p2); [apply IHp2; exact Hr| |constructor].
+      intros v H2 H1. unfold Unsat in *. cbn. unfold passes, ob in H1. specialize (Htl v).
+      destruct (ev W p1 v) as [[|]|]; [discriminate|exact H2|contradiction].
+  - (* Ne *) cbn [gen_false]. constructor. constructor; [|constructor]. unfold Unsat, cv. cbn. now rewrite Qeq_bool_refl'.
+  - (* In *) cbn [gen_false]. destruct f_v; [repeat constructor|].
+    destruct ck; try (repeat constructor; fail); unfold generate_ints, generate_strings; apply filter_not_safe.
+  - (* IsNone *) cbn [gen_false]. unfold generate_anys. eapply Safe_weaken; [|apply filter_safe].
+    intros v Hv. unfold Sat, Unsat in *. cbn in *. destruct v; cbn in *; congruence.
+  - (* IsFalsy *) cbn [gen_false]. unfold generate_anys. eapply Safe_weaken; [|apply filter_safe].
+    intros v Hv. unfold Sat, Unsat in *. cbn in *. injection Hv as ->. reflexivity.
+  - (* All *) cbn [gen_false]. constructor.
+    assert (Hb : Safe (Unsat W (PAll p)) (GInt 1 10 (fun z => GTake (Z.to_nat z) (gen_false fe W ck p) [] (fun vs =>
+              match vs with [] => GAbort | _ => rcwr vs (Z.to_nat z) (fun c1 => GYield (VColl KTuple c1) GStop) end)))).
+    { constructor. intros z Hz. eapply S_take with (Q := Unsat W p); [apply IHp; exact Hok|constructor|]. intros vs Hvs.
+      destruct vs as [|v0 vs']; [constructor|]. eapply rcwr_safe; [exact Hvs|]. intros c1 Hc1 Hl1.
+      constructor; [|constructor]. destruct Hc1 as [|v r Hv _].
+      - (* the combination has as many elements as were asked for: at least one *) exfalso. cbn in Hl1.
+        destruct Hz as [Hz|Hz]; [|lia]. assert (Z.to_nat z <> 0) by lia. congruence.
+      - apply unsat_all. exact Hv. }
+    constructor; exact Hb.
+  - (* SetOf *) cbn [gen_false]. constructor. eapply S_take with (Q := Unsat W p); [apply IHp; exact Hok|constructor|].
+    intros vs Hvs. destruct vs as [|v0 vs']; [constructor|]. eapply rcwr_safe; [exact Hvs|]. intros c1 Hc1 Hl1.
+    constructor; [|constructor]. destruct Hc1 as [|v r Hv _]; [discriminate Hl1|]. apply unsat_setof. exact Hv.
 Qed.
